@@ -268,8 +268,43 @@ def results_ins(mon, fs, job):
     })
 
 
+def read_public_properties(obj):
+    """Read every public property / plain attribute of an object (results
+    are discarded).  Reading must not change anything."""
+    n = 0
+    for name in dir(type(obj)):
+        if name.startswith("_"):
+            continue
+        attr = getattr(type(obj), name, None)
+        if isinstance(attr, property):
+            try:
+                getattr(obj, name)
+                n += 1
+            except Exception:  # noqa: BLE001 - reading is best effort
+                pass
+    return n
+
+
 def results(mon, fs, job):
-    if job.get("ins"):
-        results_ins(mon, fs, job)
-    else:
-        results_standard(mon, fs, job)
+    """Two passes: the second one after every public read-only property of
+    the sampler, its integral state and the FlowSampler has been read - a
+    result must not depend on which accessors were used before."""
+    fn = results_ins if job.get("ins") else results_standard
+    fn(mon, fs, job)
+    n = read_public_properties(fs.ns) + read_public_properties(fs)
+    state = getattr(fs.ns, "state", None)
+    if state is not None:
+        n += read_public_properties(state)
+    for nm in ("training_samples", "iid_samples"):
+        st_ = getattr(fs.ns, nm, None)
+        if st_ is not None and getattr(st_, "state", None) is not None:
+            n += read_public_properties(st_.state)
+    mon.count("results.properties_read", n)
+    before = len(mon.violations)
+    mon.key_suffix = getattr(mon, "key_suffix", "")
+    old = mon.key_suffix
+    mon.key_suffix = old + ":after-reading-properties"
+    try:
+        fn(mon, fs, job)
+    finally:
+        mon.key_suffix = old
